@@ -272,7 +272,7 @@ theorem rel_step (st : SpecSt) (s : Sys) (o : Op) (hr : Rel st s) :
     | none =>
       rw [hsv] at hk
       simp only [Option.map_none] at hk
-      refine ⟨st, by simp [step, hk, specStep], ?_⟩
+      refine ⟨st, by simp [step, hk, specStep, hsv], ?_⟩
       simp only [step, hk]
       exact ⟨hfiles, hl, hf, hidf, hsid, htl⟩
     | some sv =>
